@@ -311,6 +311,10 @@ func streamCodec(c *Ctx) {
 		}
 	}
 	rec(nil, 0)
+	// padding in every place a decoder might look for it, and nothing else
+	for _, t := range []string{"=", "==", "===", "====", "=====", "========", "============", "A===", "AA==", "AAA=", "====AAAA", "AAAA====", "AA==AA==", "=A==", "A=A=", "AAAA=", "AAAAA===", "\n====", "====\n", "=\n=\n=\n="} {
+		codecOp(c, "b64.dec "+hx([]byte(t)))
+	}
 	c.exhaust = true
 	c.Note("byte strings up to length 2 enumerated completely for pct.enc/b64.enc/b64.dec and up to length %d for pct.dec; codes 0..%d enumerated", maxLen, maxSeq)
 	if c.Thorough() {
